@@ -27,7 +27,7 @@ def run(pid, tier, seed, replay=None):
         rows = vlib.read_ndjson(log)
         for r in rows:
             c = cases[r["case"]]
-            desc = {"order": c["order"], "knots": c["knots"], "coords": c["coords"], "api": r["api"], "example": r["example"]}
+            desc = {"order": c["order"], "knots": c["knots"], "coords": c["coords"], "api": r["api"], "log2_coefficient_scale": r.get("log2scale", 0), "example": r["example"]}
             if not r["completed"]:
                 ck.violation({"class": "grideval-failed", "api": r["api"]}, dict(desc, err=r["err"]))
             if r["bad_value"]:
@@ -42,7 +42,7 @@ def run(pid, tier, seed, replay=None):
         ck.cov["traces_validated_against_impl"] = len(rows)
         ck.cov["evaluations"] = summ["points"]
         ck.cov["distinct_nontrivial"] = len(cases)
-        ck.cov["rule"] = "TLC-enumerated (table, grid) cases: 4 axes (orders 0..3, irregular knots) x 5 abscissa lists per dimension, all 1-D combinations and thinned 2-D / 3-D combinations; every interior grid point compared"
+        ck.cov["rule"] = "TLC-enumerated (table, grid) cases: 4 axes (orders 0..3, irregular knots) x 5 abscissa lists per dimension, all 1-D combinations and thinned 2-D / 3-D combinations; every interior grid point compared; every table also with its coefficients scaled by 2^-40, 2^-70, 2^-100, 2^40 (exactly scaled oracle)"
         return ck.finish(exhaustive=False)
     finally:
         if not os.environ.get("VERIF_KEEP"):
